@@ -164,7 +164,7 @@ func TestHybridSubtle(t *testing.T) {
 		salt := drawSalt(rt)
 		priv := drawScalar(rt, "private", cv.ref.N, cv.ref.Size)
 		pt := drawPlaintext(rt)
-		info := gen.BytesOrNil(rt, "info", 128)
+		info := drawInfo(rt)
 		x, y, err := cv.ref.PublicFromPrivate(priv)
 		if err != nil {
 			rt.Fatal(err)
@@ -219,6 +219,7 @@ func TestHybridSubtle(t *testing.T) {
 		structural(rt, r, layout{plen: 0, kemLen: kemLen, tagLen: tagLen}, tk.NoPrefix, 0, ct, info, false)
 		pointCandidates(r, cv.ref, f.name, nil, ct[:kemLen], ct[kemLen:], info)
 		r.record()
+		reuseAfterRejects(rt, desc, enc, dec, ct, rct, pt, info, func(x []byte) ([]byte, error) { return eciesref.Open(ref, priv, info, x) })
 		n := codecEquivalence(rt, cv.ref, sc, f.name, priv, x, y)
 		evid.Add("codec_candidates", int64(n))
 		class := fmt.Sprintf("subtle/%s/%s/%s/%s", cv.name, h.name, f.name, dem.Kind)
